@@ -34,9 +34,11 @@ var opMethods = []string{"SafeString", "SafeInt", "SafeUint", "SafeFloat", "Safe
 	"Write", "WriteString", "WriteByte", "WriteRune"}
 
 // Payload classes. '@' is replaced by a letter unique to the op's position.
-var strPayloadsValid = []string{"@", "", " ", "\n", "@\n@", "\n\n@", startM + "@", "@" + endM, redactedM, "é@日", "?@", "@ \n", "@º", "‰@", "※", "@☺", "⁹"}
+var strPayloadsValid = []string{"@", "", " ", "\n", "@\n@", "\n\n@", startM + "@", "@" + endM, redactedM, "é@日", "?@", "@ \n", "@º", "‰@", "※", "@☺", "⁹",
+	// valid runes whose encoding ENDS in the last two bytes of a marker (E3 80 BA, E1 80 BA, F0 90 80 BA, E3 80 B9)
+	"@〺", "\u103a", "@\U0001003a", "〹@"}
 var strPayloadsInvalid = []string{"\xe2", "@\xe2\x80", "\x80\xb9", "\xba@", "\xff", "\xe2\x80\n", "\n\xe2"}
-var runePayloadsValid = []int32{'a', '\n', ' ', 0x2039, 0x203a, 0xe9, 0x1f6d1, '?', 0, 0xba, 0x2030, 0x203b, 0x263a, 0x2079}
+var runePayloadsValid = []int32{'a', '\n', ' ', 0x2039, 0x203a, 0xe9, 0x1f6d1, '?', 0, 0xba, 0x2030, 0x203b, 0x263a, 0x2079, 0x303a, 0x103a, 0x1003a, 0x3039}
 var runePayloadsInvalid = []int32{-1, 0xd800, 0xdfff, 0x110000, -2147483648, 2147483647}
 var bytePayloadsValid = []byte{'a', '\n', ' ', '?', 0}
 var bytePayloadsInvalid = []byte{0xe2, 0x80, 0xb9, 0xba, 0xff, 0xc3}
